@@ -38,11 +38,11 @@ LEVEL_TEXT = (
     "levels 0/1/2/s observed by wrapping FunctionPass.run, random pass sequences) on checker-accepted input is fed through that checker on "
     "every run, so each acceptance is a kernel-checked proof that THIS output is well-formed; a Python exception in a pass is a failing input. "
     "(P) Lean theorems about the pass models Model.Opt, for all inputs: Value.replace_by keeps WF under type/dominance side conditions "
-    "(replace_by_preserves_wf), CommonSubexpressionElimination and DeleteUnusedInstructions keep every well-formed module well-formed "
-    "(cse_preserves_wf, deleteUnused_preserves_wf, no side condition), RemoveAddZero does so when no call goes through the result of a "
-    "binop (removeAddZero_preserves_wf_partial; the unguarded statement is refuted by a Lean-checked witness = open finding). NOT shown as "
-    "theorems: ConstantFolder (stated as constFold_preserves_wf_full), LoadAfterStore, CJump, mem2reg, clean, tailcall - for those only "
-    "the per-output validation holds."
+    "(replace_by_preserves_wf), CommonSubexpressionElimination, DeleteUnusedInstructions and ConstantFolder (fresh Const inserted "
+    "before the folded value + the chain rewrite, whenever the model returns) keep every well-formed module well-formed "
+    "(cse_preserves_wf, deleteUnused_preserves_wf, constFold_preserves_wf, no side condition), RemoveAddZero does so when no call goes "
+    "through the result of a binop (removeAddZero_preserves_wf_partial; the unguarded statement is refuted by a Lean-checked witness = "
+    "open finding). NOT shown as theorems: LoadAfterStore, CJump, mem2reg, clean, tailcall - for those only the per-output validation holds."
 )
 LEVEL_NOTE = (
     "trusted: Lean kernel; axioms propext/Classical.choice/Quot.sound; the structural serialiser harness/irser.py (ppci objects -> Spec.IR "
@@ -75,7 +75,7 @@ WORKERS = int(os.environ.get("C03_WORKERS", "4"))
 #: short name -> how to get the class; the order is the order of the api.optimize pipeline, CJumpPass last
 PASS_NAMES = ["mem2reg", "addzero", "constfold", "cse", "tailcall", "las", "delunused", "clean", "cjump"]
 #: passes whose Lean model is tied by correspondence here (the ones the preservation theorems are about)
-MODELLED = ["addzero", "cse", "delunused"]
+MODELLED = ["addzero", "cse", "delunused", "constfold"]
 
 
 def pass_classes():
